@@ -86,6 +86,9 @@ def sem(ev):
     elif k == "FLOCK_TRY":
         if _sub(c1, ["LOCK"]):
             out.add("FLOCK")
+    elif k == "FS_MKDIR":
+        if _sub(c1, ["CAS_DIR"]):
+            out.add("CAS_MKDIR")
     return out
 
 
